@@ -203,6 +203,34 @@ def build(spec, hash_order: Optional[dict[str, int]] = None) -> Bundle:
     return Bundle(spec, classes, mod, classes[spec["start"]], considered)
 
 
+def build_type(t, classes) -> Any:
+    """Python type object for a spec TYPE, given the classes of a bundle."""
+    if isinstance(t, str):
+        return BASE[t]
+    k = t[0]
+    if k == "ref":
+        return classes[t[1]]
+    if k == "list":
+        return list[build_type(t[1], classes)]
+    if k == "union":
+        return Union[tuple(build_type(x, classes) for x in t[1:])]
+    if k == "tuple":
+        return tuple[tuple(build_type(x, classes) for x in t[1:])]
+    if k == "ann":
+        return Annotated[build_type(t[1], classes), make_mh(t[2])]
+    raise ValueError(t)
+
+
+def respec_field(spec, cls_name, field, new_t):
+    """Copy of the spec with one field type replaced."""
+    s = dict(spec)
+    s["name"] = spec["name"] + f"+reannotated({cls_name}.{field})"
+    s["prods"] = [
+        [p[0], p[1], p[2], [[fn, (new_t if (p[0] == cls_name and fn == field) else ft)] for fn, ft in p[3]]] for p in spec["prods"]
+    ]
+    return s
+
+
 # ---------------------------------------------------------------------------------------
 # spec helpers
 
@@ -604,6 +632,31 @@ def family_shapes():
             "start": "A",
         },
     )
+    # S20 a recursive production whose own minimum depth is 3 (mutual recursion with a single way back)
+    out.append(
+        {
+            "name": "S20:deep-recursive",
+            "abstract": [["A", None, "ABC"], ["B", None, "ABC"]],
+            "prods": [
+                ["L", "A", None, [["v", IR01]]],
+                ["P", "A", None, [["b", ref("B")]]],
+                ["Q", "B", None, [["a", ref("A")]]],
+            ],
+            "start": "A",
+        },
+    )
+    # S21 float range declared with int literal bounds
+    out.append(
+        {
+            "name": "S21:float-int-bounds",
+            "abstract": [["A", None, "ABC"]],
+            "prods": [
+                ["L", "A", None, [["v", ["ann", "float", ["FloatRange", 0, 1]]]]],
+                ["P", "A", None, [["x", ref("A")], ["w", ["ann", "float", ["FloatRange", -1, 1]]]]],
+            ],
+            "start": "A",
+        },
+    )
     # S16 union of two abstract types of different minimum depth
     out.append(
         {
@@ -673,7 +726,7 @@ def finite_family(tier: str):
     fa = finite_alphabet()
     out = list(family_one_abstract(fa, 1 if tier == "quick" else 2, "F1"))
     out += [s for s in family_shapes() if s["name"].split(":")[0] in
-            ("S1", "S2", "S3", "S4", "S5", "S6", "S7", "S8", "S9", "S10", "S12", "S13", "S14", "S15", "S16", "S17", "S18", "S19")]
+            ("S1", "S2", "S3", "S4", "S5", "S6", "S7", "S8", "S9", "S10", "S12", "S13", "S14", "S15", "S16", "S17", "S18", "S19", "S20")]
     out += list(family_two_abstract(finite_alphabet, "F2"))
     out += list(family_nested(finite_alphabet, "F3"))
     return out
@@ -689,6 +742,6 @@ def general_family(tier: str):
         for i, t in enumerate(ia):
             for j, u in enumerate(fa):
                 out.append(_one_abstract(f"G2:{i},{j}", [t, u]))
-    out += [s for s in family_shapes() if s["name"].startswith("S11")]
+    out += [s for s in family_shapes() if s["name"].startswith(("S11", "S21"))]
     out += list(family_two_abstract(infinite_alphabet, "G3"))
     return out
